@@ -1,2 +1,95 @@
-(* C06 statements pinned here *)
-From A1 Require Import Uper.Reader.
+(* C06 — the encoder rejects constraint-violating values and never emits a wrong encoding.
+   Statements pinned here; L1 proofs in Per/Proofs.v (via Props/C10.v), L2 lemmas in Uper/RejectProofs.v. *)
+From A1 Require Import Per.Prim Per.X691 Per.Proofs Uper.Reader Uper.RejectProofs.
+From A1 Require Props.C10.
+Local Open Scope N_scope.
+
+(** L1: every primitive writer answers with the constraint error for every value outside its bounds
+    (all i64 / u64 bounds and values, both cargo profiles) *)
+Theorem C06_constrained_reject : forall m lb ub v,
+  (v < lb \/ ub < v)%Z -> w_constrained m lb ub v = Err E_VALUE_RANGE.
+Proof. exact C10.C10_constrained_reject. Qed.
+
+Theorem C06_nnbi_reject : forall m lb ub v,
+  nn_bounded lb ub -> v < opt_or lb 0 \/ opt_or ub I64_MAX < v ->
+  w_nnbi m lb ub v = Err E_VALUE_RANGE.
+Proof. exact C10.C10_nnbi_reject. Qed.
+
+Theorem C06_index_reject : forall m std ext i,
+  std <= i -> ext = false -> w_enumeration_index m std ext i = Err E_INVALID_CHOICE.
+Proof.
+  intros m std ext i H1 H2. apply C10.C10_index_reject. apply C10.C10_index_inadmissible. auto.
+Qed.
+
+Theorem C06_octetstring_size_reject : forall m lb ub bytes,
+  blen bytes < opt_or lb 0 \/ opt_or ub I64_MAX < blen bytes ->
+  w_octetstring m lb ub false bytes = Err E_SIZE_RANGE.
+Proof. exact C10.C10_octetstring_reject. Qed.
+
+Theorem C06_bitstring_size_reject : forall m lb ub bytes offset len,
+  len < opt_or lb 0 \/ opt_or ub I64_MAX < len ->
+  w_bitstring m lb ub false bytes offset len = Err E_SIZE_RANGE.
+Proof. exact C10.C10_bitstring_reject. Qed.
+
+(** L2: the type-level writer at top level (no enclosing scope) *)
+Theorem C06_int_reject : forall m k lo hi v w,
+  w_scope w = None -> is_i64 v -> (v < lo \/ hi < v)%Z ->
+  write_ty m (TInt k (Some lo) (Some hi) false) (VInt v) w = Err E_VALUE_RANGE.
+Proof. exact int_reject. Qed.
+
+Theorem C06_octets_reject : forall m lo hi bs w,
+  w_scope w = None -> blen bs < opt_or lo 0 \/ opt_or hi I64_MAX < blen bs ->
+  write_ty m (TOctets lo hi false) (VOctets bs) w = Err E_SIZE_RANGE.
+Proof. exact octets_reject. Qed.
+
+Theorem C06_bits_reject : forall m lo hi bs bl w,
+  w_scope w = None -> bl < opt_or lo 0 \/ opt_or hi I64_MAX < bl ->
+  write_ty m (TBitStr lo hi false) (VBits bs bl) w = Err E_SIZE_RANGE.
+Proof. exact bits_reject. Qed.
+
+Theorem C06_enum_reject : forall m vc std i w,
+  w_scope w = None -> std <= i ->
+  write_ty m (TEnum vc std false) (VEnum i) w = Err E_INVALID_CHOICE.
+Proof. exact enum_reject. Qed.
+
+Theorem C06_choice_reject : forall m alts std i x w,
+  w_scope w = None -> std <= i ->
+  write_ty m (TChoice alts std false) (VChoice i x) w = Err E_INVALID_CHOICE.
+Proof. exact choice_reject. Qed.
+
+Theorem C06_alphabet_reject : forall m c lo hi ext chars w,
+  w_scope w = None -> c <> Utf8 -> find_invalid c chars = true ->
+  write_ty m (TStr c lo hi ext) (VStr chars) w = Err E_INVALID_STRING.
+Proof. exact alphabet_reject. Qed.
+
+Theorem C06_string_size_reject : forall m c lo hi chars w,
+  w_scope w = None -> c <> Utf8 -> find_invalid c chars = false ->
+  N.of_nat (length chars) < opt_or lo 0 \/ opt_or hi U64_MAX < N.of_nat (length chars) ->
+  write_ty m (TStr c lo hi false) (VStr chars) w = Err E_SIZE_RANGE.
+Proof. exact string_size_reject. Qed.
+
+Theorem C06_list_size_reject : forall m e lo hi vs w,
+  w_scope w = None ->
+  N.of_nat (length vs) < opt_or lo 0 \/ opt_or hi I64_MAX < N.of_nat (length vs) ->
+  write_ty m (TListOf e lo hi false) (VList vs) w = Err E_SIZE_RANGE.
+Proof. exact list_size_reject. Qed.
+
+Example C06_nonvacuous :
+  write_ty dev_mode (TInt U8 (Some 5%Z) (Some 5%Z) false) (VInt 6) w_empty = Err E_VALUE_RANGE /\
+  write_ty release_mode (TStr Numeric (Some 1) (Some 3) false) (VStr [49; 65]) w_empty = Err E_INVALID_STRING /\
+  write_ty dev_mode (TOctets (Some 2) (Some 2) false) (VOctets [1; 2; 3]) w_empty = Err E_SIZE_RANGE.
+Proof. vm_compute. repeat split. Qed.
+
+Print Assumptions C06_constrained_reject.
+Print Assumptions C06_nnbi_reject.
+Print Assumptions C06_index_reject.
+Print Assumptions C06_octetstring_size_reject.
+Print Assumptions C06_bitstring_size_reject.
+Print Assumptions C06_int_reject.
+Print Assumptions C06_octets_reject.
+Print Assumptions C06_bits_reject.
+Print Assumptions C06_enum_reject.
+Print Assumptions C06_choice_reject.
+Print Assumptions C06_alphabet_reject.
+Print Assumptions C06_string_size_reject.
+Print Assumptions C06_list_size_reject.
